@@ -78,6 +78,23 @@ def write_sets():
     return out
 
 
+def dispatch_tables():
+    """names of the ops / functions / module classes registered in quanto's live dispatch tables"""
+    import torch  # noqa
+    import optimum.quanto  # noqa
+    from optimum.quanto.nn import qmodule
+    from optimum.quanto.tensor import qbytes_ops, qtensor_func
+    from optimum.quanto.tensor.qbits import qbits_ops
+
+    def opname(o):
+        return str(o).replace("aten.", "").replace("torch.ops.", "") if not hasattr(o, "__name__") else o.__name__
+    qbytes = sorted(str(k).split(".")[-1] for k in qbytes_ops._QBYTESTENSOR_OP_TABLE)
+    qbits = sorted(str(k).split(".")[-1] for k in qbits_ops._QBITSTENSOR_OP_TABLE)
+    funcs = sorted(getattr(k, "__name__", str(k)) for k in qtensor_func._QTENSOR_FUNC_TABLE)
+    mods = sorted(k.__name__ + "->" + v[0].__name__ for k, v in qmodule._QMODULE_TABLE.items())
+    return qbytes, qbits, funcs, mods
+
+
 def render():
     tbl, routes = cpp_unpack_table()
     lines = ["/- GENERATED by harness/extract.py from /repo's working tree on every check run. Do not edit. -/",
@@ -93,6 +110,17 @@ def render():
     lines.append("/-- `AWQ_ORDER` and `AWQ_REVERSE_ORDER` of qbits/awq/packed.py -/")
     lines.append("def awqOrder : List Nat := [" + ", ".join(map(str, o)) + "]")
     lines.append("def awqReverseOrder : List Nat := [" + ", ".join(map(str, r)) + "]")
+    lines.append("")
+    try:
+        qb, qbi, fn, mods = dispatch_tables()
+    except Exception as e:  # noqa
+        qb, qbi, fn, mods = ["<import failed: %s>" % type(e).__name__], [], [], []
+    strl = lambda l: "[" + ", ".join("\"" + x + "\"" for x in l) + "]"
+    lines.append("/-- the live dispatch tables: aten ops intercepted for QBytesTensor / QBitsTensor, torch functions intercepted for QTensor, module registry -/")
+    lines.append("def qbytesOps : List String := " + strl(qb))
+    lines.append("def qbitsOps : List String := " + strl(qbi))
+    lines.append("def qtensorFuncs : List String := " + strl(fn))
+    lines.append("def qmoduleRegistry : List String := " + strl(mods))
     lines.append("")
     lines.append("/-- attribute writes / in-place calls found in the inference and quantization entry points (source text) -/")
     lines.append("def writeSets : List (String × List String) := [")
